@@ -70,7 +70,7 @@ class H1Client:
                 upto = len(self.stream)
             self.feed_upto(upto)
         elif s == "ws":
-            self.ws_client().step(st)
+            return self.ws_client().step(st)
         else:
             raise AssertionError("unknown step %r" % (st,))
 
@@ -196,6 +196,10 @@ class H1Client:
     def fed(self, index: int, n: int) -> None:
         if self.h2 is not None:
             self.h2.fed(index, n)
+        elif self.ws is not None:
+            self.ws.fed(index, n)
+        else:
+            self.sess.trace.log("c_send", upto=self.pos, n=n, reqs=[], cerr=False)
 
     def ws_client(self):
         if self.ws is None:
